@@ -361,6 +361,70 @@ func runC14(c *Ctx) {
 	c.Rule("C14.E5", "GATE+CONFINED", "in package rlp every make() whose length derives from a decoded size is dominated by a successful (*Stream).Kind() and has one-byte elements; no reflective allocation (reflect.MakeSlice …) is sized by a decoded length; slices of the stream's scratch buffer are never returned or stored; Kind/readKind compare the size with the remaining input and fail with ErrValueTooLarge; every stream created without an input limit outside rlp is a tabled site")
 	c.Min(4)
 	c14E5(c, w)
+
+	// ------------------------------------------------------------ E6
+	c.Rule("C14.E6", "TYPESTATE", "the pooled encode buffer behind an EncodeToReader reader goes back to the pool only when the reader holds no piece of it any more: every encbufPool.Put in (*encReader).Read is gated by 'the piece just obtained is nil' and followed by clearing the buffer reference; the one-shot encoders return their buffer in a defer after copying the bytes out")
+	c.Min(2)
+	{
+		rd := w.Fn("rlp", "encReader", "Read")
+		c.sawFunc(fname(rd))
+		pieceF := w.Field("rlp", "encReader", "piece")
+		bufF := w.Field("rlp", "encReader", "buf")
+		nPut := 0
+		for _, ci := range callInstrs(rd) {
+			o := calleeObj(ci)
+			if o == nil || o.Name() != "Put" || recvName(o) != "Pool" {
+				continue
+			}
+			nPut++
+			c.sites++
+			gated := false
+			for _, a := range atomsOf(factsAtInstr(ci)) {
+				if a.Kind == "isnil" && a.Truth {
+					if f, _ := loadedField(stripConv(a.X)); f == pieceF {
+						gated = true
+					}
+					if cc, ok := stripConv(a.X).(*ssa.Call); ok && calleeObj(cc) != nil && calleeObj(cc).Name() == "next" {
+						gated = true
+					}
+				}
+			}
+			cleared := false
+			for _, fw := range fieldWrites(rd) {
+				if fw.Field == bufF && fw.Kind == "store" && instrDominates(ci, fw.Instr) {
+					if cv, ok := fw.Instr.(*ssa.Store).Val.(*ssa.Const); ok && cv.IsNil() {
+						cleared = true
+					}
+				}
+			}
+			ok := gated && cleared
+			c.Check(fmt.Sprintf("%s#pool-put@%s-only-without-piece", fname(rd), siteOrdinal(rd, ci, "")), ci.Pos(), ok, ifelse(ok, "the buffer is released under piece == nil and the reference is cleared", "the encode buffer is put back into the pool while the reader may still hold (or later hand out) a piece that points into it: the next encoder that takes the buffer overwrites bytes this reader has yet to deliver, and the stream is no longer the encoding of the value"))
+		}
+		if nPut == 0 {
+			c.Undecided(fname(rd)+"#pool-put", rd.Pos(), "Read no longer returns the buffer to the pool")
+		}
+		// next() hands out a kept piece only while the buffer is still owned
+		nx := w.Fn("rlp", "encReader", "next")
+		c.sawFunc(fname(nx))
+		c.sites++
+		badNext := false
+		for _, rp := range returnPaths(nx, 0) {
+			if f, _ := loadedField(stripConv(rp.Val)); f == pieceF {
+				owned := false
+				for _, a := range rp.Atoms() {
+					if a.Kind == "isnil" && !a.Truth {
+						if bf, _ := loadedField(stripConv(a.X)); bf == bufF {
+							owned = true
+						}
+					}
+				}
+				if !owned {
+					badNext = true
+				}
+			}
+		}
+		c.Check(fname(nx)+"#kept-piece-only-while-buffer-owned", nx.Pos(), !badNext, ifelse(!badNext, "a kept piece is returned only under buf != nil", "next() returns a kept piece without knowing that the buffer is still owned: after the buffer went back to the pool the piece is served from memory another encoder is writing"))
+	}
 }
 
 func valueOf(in ssa.Instruction) ssa.Value {
